@@ -1,4 +1,5 @@
 import Model.Log.Time
+import Lemmas.LogCalendar
 /-! Helper lemmas for `accepted_wf` (Props/C13): whatever `parseTime` accepts is a well-formed time. -/
 namespace LogM
 
@@ -119,6 +120,40 @@ theorem addSecond_valid (t : Time) (h : RawValid t) (h0 : t.nanos = 0) :
   repeat' split
   all_goals (first | (simp; omega) | omega)
 
+/-- civil fields in range, on a microsecond — everything `TimeWF` asks except the year bounds and the offset -/
+def FieldsValid (t : Time) : Prop :=
+  1 ≤ t.month ∧ t.month ≤ 12 ∧ 1 ≤ t.day ∧ t.day ≤ daysIn t.month t.year ∧
+  t.hour ≤ 23 ∧ t.min ≤ 59 ∧ t.sec ≤ 59 ∧ t.nanos < 1000000000 ∧ t.nanos % 1000 = 0
+
+/-- `Round(Microsecond)` of what `time.Parse` returns: fields still in range (the carry of a full second may run up to the
+year), now on a microsecond, same offset -/
+theorem roundMicro_valid (t0 : Time) (hv : RawValid t0) : FieldsValid (roundMicro t0) ∧ (roundMicro t0).off = t0.off := by
+  obtain ⟨a0, a1, a2, a3, a4, a5, a6, a7, a8, a9, a10, a11, a12⟩ := hv
+  by_cases h0 : t0.nanos % 1000 = 0
+  · simp only [roundMicro, h0, if_true]
+    exact ⟨⟨a2, a3, a4, a5, a6, a7, a8, a9, h0⟩, trivial⟩
+  · by_cases h1 : 2 * (t0.nanos % 1000) < 1000
+    · simp only [roundMicro, h0, h1, if_true, if_false]
+      exact ⟨⟨a2, a3, a4, a5, a6, a7, a8, by show t0.nanos - t0.nanos % 1000 < 1000000000; omega,
+        by show (t0.nanos - t0.nanos % 1000) % 1000 = 0; omega⟩, trivial⟩
+    · by_cases h2 : t0.nanos - t0.nanos % 1000 + 1000 < 1000000000
+      · simp only [roundMicro, h0, h1, h2, if_true, if_false]
+        exact ⟨⟨a2, a3, a4, a5, a6, a7, a8, h2, by show (t0.nanos - t0.nanos % 1000 + 1000) % 1000 = 0; omega⟩, trivial⟩
+      · simp only [roundMicro, h0, h1, h2, if_false]
+        have hv0 : RawValid { t0 with nanos := 0 } := ⟨a0, a1, a2, a3, a4, a5, a6, a7, a8, by simp, a10, a11, a12⟩
+        obtain ⟨b0, b1, b2, b3, b4, b5, b6, b7, b8, b9, b10⟩ := addSecond_valid { t0 with nanos := 0 } hv0 rfl
+        exact ⟨⟨b2, b3, b4, b5, b6, b7, b8, by rw [b9]; decide, by rw [b9]⟩, b10⟩
+
+/-- `UTC()` of a time with fields in range: fields in range again (for the reading at offset 0 of ANY instant:
+`ofUnix_valid`), same nanoseconds, offset 0 -/
+theorem toUTC_valid (t : Time) (hv : FieldsValid t) : FieldsValid (toUTC t) ∧ (toUTC t).off = 0 := by
+  unfold toUTC
+  split
+  · rename_i h; exact ⟨hv, h⟩
+  · obtain ⟨c1, c2, c3, c4, c5, c6, c7, c8, c9⟩ := ofUnix_valid t.unixSec t.nanos 0
+    obtain ⟨_, _, _, _, _, _, _, n1, n2⟩ := hv
+    exact ⟨⟨c1, c2, c3, c4, c5, c6, c7, by rw [c8]; exact n1, by rw [c8]; exact n2⟩, c9⟩
+
 theorem parseTime_wf (s : String) (t : Time) (h : parseTime s = .ok t) : TimeWF t := by
   unfold parseTime at h
   split at h
@@ -131,22 +166,8 @@ theorem parseTime_wf (s : String) (t : Time) (h : parseTime s = .ok t) : TimeWF 
       injection h with h
       subst h
       simp only [readable, decide_eq_true_eq] at hr
-      obtain ⟨a0, a1, a2, a3, a4, a5, a6, a7, a8, a9, a10, a11, a12⟩ := hv
-      by_cases h0 : t0.nanos % 1000 = 0
-      · simp only [roundMicro, h0, if_true] at hr ⊢
-        simp only [TimeWF]; omega
-      · by_cases h1 : 2 * (t0.nanos % 1000) < 1000
-        · simp only [roundMicro, h0, h1, if_true, if_false] at hr ⊢
-          simp only [TimeWF]; omega
-        · by_cases h2 : t0.nanos - t0.nanos % 1000 + 1000 < 1000000000
-          · simp only [roundMicro, h0, h1, h2, if_true, if_false] at hr ⊢
-            simp only [TimeWF]; omega
-          · simp only [roundMicro, h0, h1, h2, if_false] at hr ⊢
-            have hv0 : RawValid { t0 with nanos := 0 } := ⟨a0, a1, a2, a3, a4, a5, a6, a7, a8, by simp, a10, a11, a12⟩
-            obtain ⟨b0, b1, b2, b3, b4, b5, b6, b7, b8, b9, b10⟩ := addSecond_valid { t0 with nanos := 0 } hv0 rfl
-            simp only at b10
-            simp only [TimeWF]
-            omega
+      obtain ⟨⟨f1, f2, f3, f4, f5, f6, f7, f8, f9⟩, ho⟩ := toUTC_valid _ (roundMicro_valid t0 hv).1
+      exact ⟨hr.1, hr.2, f1, f2, f3, f4, f5, f6, f7, f8, f9, ho⟩
     · contradiction
 
 end LogM
